@@ -14,6 +14,7 @@ ProtoRun::~ProtoRun() { vsim_probe_set(nullptr, nullptr); g_q = nullptr; }
 
 void ProtoRun::probe_cb(const vsim_probe_t *p, void *arg) {
     ProtoRun *self = (ProtoRun *) arg;
+    self->probe_next = p->seq + 1;
     if (p->kind != VSIM_PR_GCM_ENC && p->kind != VSIM_PR_CHACHA_ENC && p->kind != VSIM_PR_CBC_ENC) { return; }
     if (self->obs.seals.size() > 20000) { return; }
     SealRec s;
@@ -47,6 +48,7 @@ void ProtoRun::after_event() {
             obs.death[role].kind = e->got_error ? "error" : e->got_fatal_alert ? "fatal_alert_in" : e->got_close_notify ? "close_notify_in" : "alert_out";
             obs.death[role].events_at = e->events.size();
             obs.death[role].delivered_at = e->delivered.size();
+            seal_seq_at_death[role] = probe_next;
         }
     }
 }
@@ -76,6 +78,7 @@ void ProtoRun::filter_record(Record &r, std::vector<Bytes> &out) {
     if (pending_gap[dir]) { u.tampered = true; u.kind = "after_drop"; u.is_mod = gap_is_mod[dir]; pending_gap[dir] = false; }
     if (a.on) {
         a.on = false;
+        obs.fault_fired[dir] = true;
         size_t hdr = r.hdr, blen = r.body_len();
         obs.counters["fault." + a.kind]++;
         bool is_mod = obs.hs_done;
@@ -89,6 +92,15 @@ void ProtoRun::filter_record(Record &r, std::vector<Bytes> &out) {
             u.b[byte] ^= (unsigned char) (1u << (bit % 8));
             u.tampered = true; u.kind = byte < hdr ? "flip_header" : "flip_body"; u.is_mod = is_mod;
             if (byte < hdr) { u.kind += "_" + std::to_string(byte); }
+        } else if (a.kind == "flipbit") {
+            size_t bit = (size_t) a.a;
+            if (bit >= u.b.size() * 8) { obs.counters["fault_not_fired"]++; obs.counters["fault.flipbit"]--; }
+            else {
+                size_t byte = bit / 8; size_t len_off = pc.dtls() ? 11 : 3;
+                u.b[byte] ^= (unsigned char) (1u << (bit % 8));
+                u.tampered = true; u.kind = byte < hdr ? "flip_header_" + std::to_string(byte) : "flip_body";
+                u.is_mod = is_mod && !(byte == len_off || byte == len_off + 1);
+            }
         } else if (a.kind == "trunc") {
             size_t cut = blen ? 1 + (size_t) ((uint64_t) a.a % blen) : 0;
             u.b.resize(u.b.size() - cut);
@@ -151,16 +163,31 @@ void ProtoRun::filter_record(Record &r, std::vector<Bytes> &out) {
     g_q[dir].push_back(u);
 }
 
-void ProtoRun::hand_to_receiver(int dir, const Bytes &unit, bool tampered, const std::string &kind, bool is_mod) {
+void ProtoRun::hand_to_receiver(int dir, const Bytes &unit, bool tampered_in, const std::string &kind_in, bool is_mod) {
     MxEndpoint &rcv = w.peer(dir);
     int role = role_of_receiver(dir);
     if (!rcv.alive()) { return; }
+    bool tampered = tampered_in; std::string kind = kind_in;
+    if (!pc.dtls()) {
+        // Ground truth for a stream: the receiver's input is untampered exactly as long as it equals the honest emitted stream.
+        bool in_order = next_honest[dir] < w.captured[dir].size() && w.captured[dir][next_honest[dir]].raw == unit;
+        if (in_order && !obs.tampered[dir]) { tampered = false; next_honest[dir]++; }
+        else if (!tampered) { tampered = true; kind = in_order ? "after_divergence" : "out_of_order"; is_mod = obs.hs_done; }
+    }
     if (tampered) { note_tamper(dir, kind, is_mod); }
     bool was_dead = obs.death[role].dead;
     size_t before = rcv.delivered.size();
     size_t ev_before = rcv.events.size();
     if (tampered) {
         obs.states.push_back(std::string(role ? "srv" : "cli") + "," + ver_name(pc.version) + ",hs" + std::to_string(rcv.hs_state()) + "," + kind);
+    }
+    {
+        size_t hdr = pc.dtls() ? 13 : 5;
+        if (unit.size() >= hdr + 1 && unit[0] == 20) { obs.ccs_given[role] = true; }
+        bool epoch0 = !pc.dtls() || (unit.size() >= 5 && unit[3] == 0 && unit[4] == 0);
+        if (kind == "inject_alert" && unit.size() == hdr + 2 && unit[hdr] == 2 && !obs.ccs_given[role] && epoch0 && !obs.death[role].dead) {
+            obs.fatal_alert_given[role] = true; obs.fatal_alert_desc[role] = unit[hdr + 1];
+        }
     }
     rcv.feed(unit.data(), unit.size());
     if (tampered) { obs.tamper_consumed[dir] = true; }
@@ -200,32 +227,32 @@ Bytes ProtoRun::craft(int dir, const Op &op, bool &is_mod, std::string &kind) {
     (void) rcv;
     const std::string &k = op.s;
     kind = "inject_" + k;
-    Rng g(derive(plan.seed, "craft", (uint64_t) op.a * 131 + (uint64_t) op.b));
+    Rng g(derive(plan.seed, "craft", (uint64_t) op.b * 131 + (uint64_t) op.c));
     if (k == "plain23") {
         static const int L[] = { 0, 1, 5, 16, 64, 1024, 16384, 16385 };
-        size_t len = (size_t) L[(uint64_t) op.a % 8];
+        size_t len = (size_t) L[(uint64_t) op.b % 8];
         Bytes body(len); for (auto &c : body) { c = (unsigned char) ('A' + g.below(26)); }
         static const unsigned short V[] = { 0x0303, 0x0301, 0x0302, 0x0304, 0x0300 };
-        uint16_t v = dtls ? ver : V[(uint64_t) op.b % 5];
+        uint16_t v = dtls ? ver : V[(uint64_t) op.c % 5];
         return make_record(23, v, body, dtls, epoch, seq);
     }
     if (k == "garbage") {
         static const unsigned char T[] = { 23, 22, 21, 20, 23, 24, 99 };
         size_t len = 1 + (size_t) g.below(200);
         Bytes body(len); for (auto &c : body) { c = (unsigned char) g.next(); }
-        return make_record(T[(uint64_t) op.a % 7], ver, body, dtls, epoch, seq);
+        return make_record(T[(uint64_t) op.b % 7], ver, body, dtls, epoch, seq);
     }
     if (k == "replay" || k == "relabel") {
         auto &cap = w.captured[dir];
         if (cap.empty()) { return Bytes(); }
-        Record r = cap[(uint64_t) op.a % cap.size()];
-        if (k == "relabel") { static const unsigned char T[] = { 23, 22, 21, 20 }; unsigned char nt = T[(uint64_t) op.b % 4]; if (nt == r.raw[0]) { nt = (unsigned char) (nt == 23 ? 22 : 23); } r.raw[0] = nt; }
+        Record r = cap[(uint64_t) op.b % cap.size()];
+        if (k == "relabel") { static const unsigned char T[] = { 23, 22, 21, 20 }; unsigned char nt = T[(uint64_t) op.c % 4]; if (nt == r.raw[0]) { nt = (unsigned char) (nt == 23 ? 22 : 23); } r.raw[0] = nt; }
         return r.raw;
     }
     if (k == "reflect") {
         auto &cap = w.captured[1 - dir];
         if (cap.empty()) { return Bytes(); }
-        return cap[(uint64_t) op.a % cap.size()].raw;
+        return cap[(uint64_t) op.b % cap.size()].raw;
     }
     if (k == "cross") {
         auto &cap = sibling[dir];
@@ -233,22 +260,22 @@ Bytes ProtoRun::craft(int dir, const Op &op, bool &is_mod, std::string &kind) {
         // prefer protected records of the sibling
         std::vector<size_t> idx;
         for (size_t i = 0; i < cap.size(); i++) { if (cap[i].type == 23 || (dtls && cap[i].epoch > 0)) { idx.push_back(i); } }
-        if (idx.empty()) { return cap[(uint64_t) op.a % cap.size()].raw; }
-        return cap[idx[(uint64_t) op.a % idx.size()]].raw;
+        if (idx.empty()) { return cap[(uint64_t) op.b % cap.size()].raw; }
+        return cap[idx[(uint64_t) op.b % idx.size()]].raw;
     }
     if (k == "alert") {
         static const unsigned char D[] = { 0, 10, 20, 21, 22, 40, 42, 47, 48, 50, 51, 70, 80, 86, 90, 100, 109, 110, 112, 120, 255 };
-        Bytes body = { (unsigned char) (1 + (uint64_t) op.a % 2), D[(uint64_t) op.b % (sizeof D)] };
-        if ((uint64_t) op.a % 7 == 6) { body[0] = 3; }
+        Bytes body = { (unsigned char) (1 + (uint64_t) op.b % 2), D[(uint64_t) op.c % (sizeof D)] };
+        if ((uint64_t) op.b % 7 == 6) { body[0] = 3; }
         return make_record(21, ver, body, dtls, epoch, seq);
     }
     if (k == "ccs") { return make_record(20, ver, Bytes{ 1 }, dtls, epoch, seq); }
     if (k == "hsmsg") {
         static const unsigned char T[] = { 0, 1, 2, 4, 11, 12, 13, 14, 15, 16, 20, 8, 24, 5 };
-        unsigned char t = T[(uint64_t) op.a % (sizeof T)];
+        unsigned char t = T[(uint64_t) op.b % (sizeof T)];
         size_t len = (size_t) g.below(40);
         Bytes body = { t, 0, (unsigned char) (len >> 8), (unsigned char) len };
-        if (dtls) { body.insert(body.end(), { 0, (unsigned char) ((uint64_t) op.b % 6), 0, 0, 0, 0, (unsigned char) (len >> 8), (unsigned char) len }); }
+        if (dtls) { body.insert(body.end(), { 0, (unsigned char) ((uint64_t) op.c % 6), 0, 0, 0, 0, (unsigned char) (len >> 8), (unsigned char) len }); }
         for (size_t i = 0; i < len; i++) { body.push_back((unsigned char) g.next()); }
         return make_record(22, ver, body, dtls, epoch, seq);
     }
@@ -318,7 +345,17 @@ void ProtoRun::do_op(const Op &op) {
         Bytes b = craft(dir, op, is_mod, kind);
         if (b.empty()) { obs.counters["fault_not_fired"]++; return; }
         obs.counters["fault." + kind]++;
+        obs.fault_fired[dir] = true;
         w.collect(DIR_C2S); w.collect(DIR_S2C);
+        if (!g_q[dir].empty() && !g_q[dir].front().tampered && g_q[dir].front().b == b) {
+            // the "injected" bytes are exactly the next honest unit still in flight: delivering them first changes nothing,
+            // the honest copy that follows is then the duplicate
+            Unit honest = g_q[dir].front(); g_q[dir].pop_front();
+            Unit dup; dup.b = b; dup.tampered = true; dup.kind = "dup"; dup.is_mod = obs.hs_done && !pc.dtls();
+            g_q[dir].push_front(dup);
+            hand_to_receiver(dir, honest.b, false, "", false);
+            return;
+        }
         if (op.d & 1) {
             // behind whatever is already queued
             Unit u; u.b = b; u.tampered = true; u.kind = kind; u.is_mod = false;
@@ -362,6 +399,7 @@ void ProtoRun::run() {
     }
     captured_reset = true;
     armed[0].on = armed[1].on = false; pending_gap[0] = pending_gap[1] = false; swap_pending[0] = swap_pending[1] = false;
+    next_honest[0] = next_honest[1] = 0;
     if (!w.connect(plan.get("resume") != 0)) { setup_failed = true; setup_detail = "connect failed cli=" + std::to_string(w.cli ? w.cli->create_rc : 0) + " srv=" + std::to_string(w.srv ? w.srv->create_rc : 0); g_q = nullptr; return; }
     for (auto &op : plan.ops) { do_op(op); }
     // final flush so late outputs of dead endpoints are audited
